@@ -250,6 +250,8 @@ def grid_s(draw, max_dim=3, ks=(1, 2, 2, 3), max_cells_k3=9):
     k = draw(st.sampled_from(ks))
     if k == 3 and nc * nr > max_cells_k3:
         k = 2
+    if k == 2 and nc * nr <= 6 and draw(_i(0, 3)) == 0:
+        k = 4  # more boxes than the tool asks for today: the per-cell at-most-one groups then have 4 literals (chained encoding)
     uniform = draw(st.booleans())
     g = draw(st.sampled_from([1, 2, 3, 4]))
     gx = [g] * nc if uniform else [draw(st.sampled_from([1, 2, 3, 5])) for _ in range(nc)]
@@ -349,7 +351,7 @@ def subchecks():
             required=("tree", "text", "module-in-several-cells", "empty-cell"),
             desc="rect_io.get_alloc + select_box: the blocks handed to the search are the allocation's cells, in order, with the selected module's ratio (0 where absent)"),
         Sub("models", run_models, strategy=grid_s(), n_quick=4000, n_thorough=40000,
-            required=("origin!=0", "fractional-extent", "non-uniform", "blocks-permuted", "k=1", "k=2", "k=3", "coordinates-with-7+-significant-digits")),
+            required=("origin!=0", "fractional-extent", "non-uniform", "blocks-permuted", "k=1", "k=2", "k=3", "k=4", "coordinates-with-7+-significant-digits")),
         Sub("shapes", run_models, enum=all_small, exhaustive=True,
             desc="every grid shape up to 3x3 (quick) / 4x4 (thorough) for k = 1..3 on five coordinate systems (origins 0 / non-0, steps 0.5-2.5)"),
         Sub("solve", run_solve, strategy=solve_s(), n_quick=3000, n_thorough=40000,
